@@ -97,7 +97,9 @@ def make_groups(scn):
             dry_run=scn.get("dry_run", False),
             distributed_submitter=scn.get("dsub", True),
             resource_monitor_type=scn.get("monitor", "none"),
-            resource_monitor_interval=1,
+            # submit-jobs lowers poll_interval to resource_monitor_interval when that is smaller: leave the monitor interval
+            # unset when a longer poll interval is generated (the interval is also how long a squeue answer is trusted)
+            resource_monitor_interval=1 if scn.get("poll", 1) == 1 else None,
             verbose=g.get("verbose", False),
         )
         groups.append(SubmissionGroup(name=group_name(gi), submitter_params=sp).dict())
@@ -141,7 +143,8 @@ class Sim:
     """One world + one output directory. Used as a context manager."""
 
     def __init__(self, scn, schedule=(), lock_mode="classic", file_yields=False, faults=None, snapshots=False,
-                 observe_results=False, max_steps=8000, observe_rows=False, exotic=(), shared_node_hosts=0, event_logging=False):
+                 observe_results=False, max_steps=8000, observe_rows=False, exotic=(), shared_node_hosts=0, event_logging=False,
+                 queue_hold=0):
         self.scn = scn
         self.base = tempfile.mkdtemp(prefix="case_", dir=scratch_root())
         self.root = os.path.join(self.base, "w")
@@ -179,6 +182,7 @@ class Sim:
         self.w.observe_rows = observe_rows
         self.w.shared_node_hosts = shared_node_hosts
         self.w.event_logging = event_logging
+        self.w.queue_hold = queue_hold
         self.w.exotic_plan = sorted((dict(x) for x in exotic), key=lambda x: x["at"])
         if isinstance(schedule, dict):
             self.w.schedule = list(schedule.get("picks", []))
